@@ -403,6 +403,11 @@ func RandDoc(r *Rand) GenDoc {
 	if r.P(1, 8) {
 		return BoundaryDoc(seed)
 	}
+	if r.P(1, 25) {
+		if v, ok := boundary(r, 100000); ok && v >= 512 {
+			return AsciiPrefixDoc(seed, v+r.Range(1, 200))
+		}
+	}
 	switch x := r.Intn(20); {
 	case x < 13:
 		return Document(seed)
